@@ -123,6 +123,10 @@ def run(ctx):
                     if not mw:
                         # no membership write: allowed only when new == old was decided
                         eq = any(c[0][0] == "cmp" and c[0][1] == "eq" and c[1] is True for c in p.conds)
+                        # or: not a member before (MEMBERS[K] read absent) and below min_bond now (no weight) - nothing to write
+                        was_absent = any(c[0][0] == "vfield" and c[0][2] == "Ok" and c[0][1][0] == "may_load" and c[0][1][1] == MEM
+                                         and c[0][1][2] == K and c[1] == "None" for c in p.conds)
+                        eq = eq or (was_absent and below is True)
                         ctx.ob("R10.5", key + "/unchanged weight", eq, sites=[e.site],
                                detail="stake changed, membership not written, and no decision that the weight is unchanged", sample={"unchanged": True})
     ctx.floor("R10.2", "bond paths", n_bond, 2)
@@ -147,6 +151,13 @@ def check_bond(ctx, p, key, variant, sw, cl, cfg):
     funds = ("field", ("param", "info"), "funds")
     if variant == "Bond":
         coin0 = ("index", funds, ("lit", 0))
+        # the same single coin taken through an iterator: it.next() = Some(coin), it.next() = None
+        it_first = [c[0] for c in p.conds if c[0][0] == "calli" and c[0][1] == "next" and c[0][2][0] == funds and c[1] == "Some"]
+        it_second_none = any(c[0][0] == "calli" and c[0][1] == "next" and c[0][2][0] == ("call", "advance", (funds,)) and c[1] == "None"
+                             for c in p.conds)
+        via_iter = bool(it_first) and it_second_none
+        if via_iter:
+            coin0 = ("vfield", it_first[0], "Some", "0")
         want = {("field", coin0, "amount"): 1}
         if kind != ["Native"]:
             prob = "native funds accepted while the configured stake token is %s" % kind
@@ -155,7 +166,7 @@ def check_bond(ctx, p, key, variant, sw, cl, cfg):
         elif d.nf.atoms != want or d.nf.const:
             prob = "stake raised by %s, not by the single attached coin's amount" % d.nf.show()
         else:
-            one = 1 in decided_ints(p.conds, ("call", "len", (funds,)))
+            one = via_iter or 1 in decided_ints(p.conds, ("call", "len", (funds,)))
             den = any(c[0][0] == "cmp" and c[0][1] == "eq" and c[1] is True and
                       set((c[0][2], c[0][3])) == set((("field", coin0, "denom"), ("vfield", ("field", cfg, "denom"), "Native", "0"))) for c in p.conds)
             if not (one and den):
@@ -222,11 +233,12 @@ def check_claim(ctx, p, key, sw, cl, cfg, CLAIMS):
     ctx.ob("R10.4", key + "/nothing to claim is an error", nz, detail="claim succeeds without the decision release != 0", sample={"guard": "release != 0"})
     ents = response_entries(p) or []
     kind = [c[1] for c in p.conds if cfg is not None and c[0] == ("field", cfg, "denom")]
-    good = len(ents) == 1 and ents[0][0] == "submsg"
-    why = "expected exactly one payout sub-message, got %s" % [(h, show(m)[:100]) for h, m in ents]
+    good = len(ents) == 1 and ents[0][0] in ("submsg", "msg")
+    why = "expected exactly one payout message, got %s" % [(h, show(m)[:100]) for h, m in ents]
     if good:
         m = ents[0][1]
-        inner = m[2][0] if m[0] == "call" and m[1].endswith("SubMsg::new") else None
+        # a plain message: add_message(x) or add_submessage(SubMsg::new(x)) (no reply handler, a failure reverts the claim)
+        inner = m if ents[0][0] == "msg" else (m[2][0] if m[0] == "call" and m[1].endswith("SubMsg::new") else None)
         good = False
         why = "payout %s does not pay `release` to info.sender in the configured token" % show(m)[:240]
         if inner is not None and inner[0] == "variant":
